@@ -51,6 +51,12 @@ Definition paste_mask_px (dst_rgba : bool) (d s : px) : px :=
   let '(sr, sg, sb, sa) := s in
   (blend8 sa dr sr, blend8 sa dg sg, blend8 sa db sb, if dst_rgba then blend8 sa da sa else 255).
 
+(* dst.paste(src, (0,0), mask) with an RGB destination and an 8 bit mask value m *)
+Definition mask_paste_px (m : Z) (d s : px) : px :=
+  let '(dr, dg, db, da) := d in
+  let '(sr, sg, sb, sa) := s in
+  (blend8 m dr sr, blend8 m dg sg, blend8 m db sb, 255).
+
 (* dst.paste(src, (0,0)) with an RGB / L source: full replacement, alpha 255 *)
 Definition paste_px (s : px) : px := set_a s 255.
 
@@ -89,8 +95,6 @@ Definition fl_trunc (x : fl) : Z :=
 
 Definition fl_one : fl := (1, 0).
 Definition fl_zero : fl := (0, 0).
-(* the double nearest to 0.99 *)
-Definition fl_099 : fl := (4458563631096791, -52).
 
 (* int(255 * opacity) in Python doubles *)
 Definition fade_factor (op : fl) : Z := fl_trunc (fl_mul 53 (fl_of_Z 255) op).
@@ -246,8 +250,13 @@ Definition merge_layer (result : image) (l : layer) : image :=
     match opacity with
     | Some op =>
       if fl_ltb op fl_one then
-        let img := convert_rgb img in
-        mk_image (im_mode result) T_none (map2 (blend_px op) (im_px result) (im_px img))
+        (* blended = Image.blend(result, img.convert(result.mode), opacity);
+           RGBA layer: result.paste(blended, (0,0), alpha band of img), otherwise result = blended *)
+        if imode_eqb (im_mode img) M_RGBA then
+          mk_image (im_mode result) T_none
+                   (map2 (fun d s => mask_paste_px (px_a s) d (blend_px op d (set_a s 255))) (im_px result) (im_px img))
+        else
+          mk_image (im_mode result) T_none (map2 (blend_px op) (im_px result) (im_px (convert_rgb img)))
       else if is_alpha_mode (im_mode img) then
         mk_image (im_mode result) T_none (map2 (paste_mask_px false) (im_px result) (im_px (convert_rgba img)))
       else
@@ -259,19 +268,11 @@ Definition merge_layer (result : image) (l : layer) : image :=
         mk_image (im_mode result) T_none (map2 (fun _ s => paste_px s) (im_px result) (im_px img))
     end.
 
-(* global clip coverage:  bg.paste(result, (0,0), mask_image(result, ...)):
-   the mask is an RGBA image, Pillow uses its alpha band *)
+(* global clip coverage: result.paste(bg, (0,0), outside) with the rasterised coverage mask
+   (true = pixel outside the coverage): outside pixels become the background, inside pixels are kept *)
 Definition global_clip (o : ropts) (result : image) (outside : list bool) : image :=
-  let mask := mask_image result outside in
-  let rgba := imode_eqb (im_mode result) M_RGBA in
   mk_image (im_mode result) T_none
-           (map2 (fun (m s : px) =>
-                    let '(dr, dg, db, da) := create_px o in
-                    let '(sr, sg, sb, sa) := s in
-                    let a := px_a m in
-                    (blend8 a dr sr, blend8 a dg sg, blend8 a db sb,
-                     if rgba then blend8 a da sa else 255))
-                 (im_px mask) (im_px result)).
+           (map2 (fun (out : bool) (s : px) => if out then create_px o else s) outside (im_px result)).
 
 (* condition of the single-layer shortcut (size given and equal to the layer's size) *)
 Definition fast_path_ok (o : ropts) (l : layer) (global_cov : bool) : bool :=
@@ -318,7 +319,7 @@ Definition view (i : image) : list px := im_px (convert_rgba i).
 (* per pixel reading of the loop, used by merge_is_fold_over: the image a layer contributes
    (after as_image, clipping and the conversion of colour keys / palette transparency) and what one
    layer does to one pixel of the result *)
-Definition px_step (composite alpha_mode : bool) (opacity : option fl) (d s : px) : px :=
+Definition px_step (composite alpha_mode rgba : bool) (opacity : option fl) (d s : px) : px :=
   if composite then
     match opacity with
     | Some op =>
@@ -330,13 +331,15 @@ Definition px_step (composite alpha_mode : bool) (opacity : option fl) (d s : px
   else
     match opacity with
     | Some op =>
-      if fl_ltb op fl_one then blend_px op d (set_a s 255)
+      if fl_ltb op fl_one
+      then (if rgba then mask_paste_px (px_a s) d (blend_px op d (set_a s 255)) else blend_px op d (set_a s 255))
       else if alpha_mode then paste_mask_px false d s else paste_px s
     | None => if alpha_mode then paste_mask_px false d s else paste_px s
     end.
 
 Definition layer_step (composite : bool) (l : layer) : px -> px -> px :=
-  px_step composite (is_alpha_mode (im_mode (norm_image l))) (layer_opacity l).
+  px_step composite (is_alpha_mode (im_mode (norm_image l))) (imode_eqb (im_mode (norm_image l)) M_RGBA)
+          (layer_opacity l).
 
 (* comparison helpers for the correspondence check *)
 Definition image_eqb (a b : image) : bool :=
@@ -352,7 +355,7 @@ Record src := mk_src {
   s_ids : list Z;            (* identities of the configured sources this one stands for *)
   s_wms : bool;              (* isinstance(_, WMSSource) *)
   s_res_ok : bool;           (* res_range is None or contains the query *)
-  s_transparent : bool;      (* image_opts.transparent *)
+  s_transparent : option bool; (* image_opts.transparent: None / False / True *)
   s_opacity : option fl;
   s_cov : Z;                 (* 0 no coverage, 1 contains the query bbox, 2 intersects, 3 disjoint *)
   s_url : Z;                 (* request_template.url *)
@@ -367,11 +370,8 @@ Record src := mk_src {
 Definition src_is_opaque (s : src) : bool :=
   if negb (s_wms s) then false               (* MapLayer.is_opaque *)
   else if negb (s_res_ok s) then false
-  else if s_transparent s then false
-  else if match s_opacity s with
-          | Some op => fl_ltb fl_zero op && fl_ltb op fl_099
-          | None => false
-          end then false
+  else if truthy (s_transparent s) then false
+  else if op_lt1 (s_opacity s) then false
   else if s_cov s =? 0 then true
   else if s_cov s =? 1 then true
   else false.
@@ -386,6 +386,8 @@ Definition opt_rgb_eqb (a b : option rgb) : bool := opt_eqb rgb_eqb a b.
 Definition src_compatible (a b : src) : bool :=
   s_wms a && s_wms b
   && (match s_opacity a, s_opacity b with None, None => true | _, _ => false end)
+  && s_res_ok a && s_res_ok b                       (* the combined source has no res_range *)
+  && (match s_transparent b with Some false => false | _ => true end)  (* an opaque upper source is not combined *)
   && (s_srs a =? s_srs b) && (s_fmts a =? s_fmts b)
   && opt_rgb_eqb (s_tcolor a) (s_tcolor b)
   && opt_eqb Z.eqb (s_ttol a) (s_ttol b)
